@@ -200,7 +200,9 @@ def oracle(cases, impl):
             hist["step:" + s[0]] = hist.get("step:" + s[0], 0) + 1
         got = project(script, out)
         want = project(script, ref_run(script, eng))
-        if out in ("panic", "openerr") or got is None or got != want:
+        if out == "skipped":
+            continue
+        if out in ("panic", "openerr", "hang") or got is None or got != want:
             rs = [s for s in read_steps(script) if judged(s)]
             first = None
             if got is not None:
@@ -226,6 +228,8 @@ def run_harness(ctx, sub, args, model=True):
     shutil.rmtree(d, ignore_errors=True)
     os.makedirs(d)
     cmd = "%s %s -out %s" % (os.path.join(vlib.BIN, "engine"), args, d)
+    if sub == "shrink":
+        cmd += " -watchdog 5"
     rc, out, dt = sh(cmd, cwd=d, timeout=3000)
     if rc != 0:
         return None, out
@@ -248,7 +252,7 @@ def shrink(ctx, eng, script, budget=150):
         impl, _ = vlib.read_out(os.path.join(d, "impl.out"))
         out = impl.get("s." + eng)
         got = project(s, out)
-        return out == "panic" or got is None or got != project(s, ref_run(s, eng))
+        return out in ("panic", "hang") or got is None or got != project(s, ref_run(s, eng))
     steps = script.split(";")
     changed = True
     while changed and budget > 0:
